@@ -30,9 +30,12 @@ def fmtList (xs : List Bytes) : Bytes := str "[" ++ joinB (str " ") xs ++ str "]
 
 /-! ### names that enter identities (hand-modelled loops of construct.go) -/
 
-/-- the identifiers that are direct children of a call, joined by "." -/
+/-- the identifiers that are direct children of a call, accumulated as the loop of `extractMethodName` does:
+    `if methodName == "" { methodName = c } else { methodName = methodName + "." + c }` — so an empty
+    identifier (tree-sitter's MISSING node after error recovery) before the first non-empty one leaves no dot -/
 def invocationName (n : T) (src : Bytes) : Bytes :=
-  joinB (str ".") ((n.children.filter (fun c => c.ty = "identifier")).map (·.content src))
+  ((n.children.filter (fun c => c.ty = "identifier")).map (·.content src)).foldl
+    (fun acc c => if acc.isEmpty then c else acc ++ str "." ++ c) []
 
 /-- `extractMethodName`: (methodName, parameters) -/
 def methodNameOf (n : T) (src : Bytes) : Outcome (Bytes × List Bytes) :=
